@@ -260,6 +260,9 @@ func (c *Client) readResult(binaryRows bool) (*Result, bool, error) {
 	}
 }
 
+// ReadResultForTest reads one text-protocol result; for tests that write the command bytes themselves.
+func (c *Client) ReadResultForTest() (*Result, bool, error) { return c.readResult(false) }
+
 // Query sends COM_QUERY and reads every result of the reply. When a statement of
 // a multi-statement fails, the results so far are returned together with the error.
 func (c *Client) Query(sql string) ([]*Result, error) {
